@@ -33,8 +33,8 @@ ASSUMPTIONS = [
 ]
 
 WORLD = {
-    "quick": dict(N=5, k=3, Nu=5, Nx=4),
-    "thorough": dict(N=7, k=3, Nu=6, Nx=5),
+    "quick": dict(N=5, k=3, Nu=5, Nx=4, Nsparse=11),
+    "thorough": dict(N=7, k=3, Nu=6, Nx=5, Nsparse=14),
 }
 NSH = 48
 GENOME = "ACGTNRYKMSWBDHV"
@@ -47,7 +47,7 @@ def world_description(tier):
         f"pairs: disjoint layouts N={w['N']} k<={w['k']} x strands x parent kinds none/id/seq; cross-kind pairs N={w['Nx']} k<=2; "
         f"unary: disjoint/+empty/+overlap layouts N={w['Nu']} k<=3; scale family: layouts with k in {worlds.SCALE_K[tier]} "
         f"(k<={16 if tier == 'quick' else 40}) blocks x strands: unary battery, and the whole pair battery against the shifted twin, "
-        f"the gaps, the next family member and the single intervals anchored at block boundaries (both operand orders)"
+        f"the gaps, the next family member and the single intervals anchored at block boundaries (both operand orders); sparse: every location of 3 single-base blocks x every location of 1-2 single-base blocks on N={w['Nsparse']}"
     )
 
 
@@ -58,6 +58,7 @@ def shards(tier, seed):
     out += [{"tier": tier, "part": "empty", "i": 0}]
     out += [{"tier": tier, "part": "unstranded", "i": i} for i in range(8)]
     out += [{"tier": tier, "part": "scale", "i": i} for i in range(NSH)]
+    out += [{"tier": tier, "part": "sparse", "i": i} for i in range(NSH)]
     return out
 
 
@@ -531,6 +532,22 @@ def run_shard(shard):
                     for pk in ("none", "seq"):
                         check_pair(res, N, b1, s1, pk, b2, s2, pk)
         res.sample({"unstranded": "pairs with at least one UNSTRANDED operand"})
+    elif part == "sparse":
+        # sparse operands on a longer genome: every location of three single-base blocks against every location of one or
+        # two single-base blocks (interleavings in which the block-to-block distance falls, rises and falls again need
+        # more room than the dense worlds have)
+        import itertools
+
+        N = w["Nsparse"]
+        a_lays = [tuple((p, p + 1) for p in c) for c in itertools.combinations(range(N), 3)]
+        b_lays = [tuple((p, p + 1) for p in c) for r in (1, 2) for c in itertools.combinations(range(N), r)]
+        for idx, A in enumerate(a_lays):
+            if idx % NSH != shard["i"]:
+                continue
+            for B in b_lays:
+                check_pair(res, N, A, "+-"[idx % 2], "none", B, "+", "none")
+                check_pair(res, N, B, "-", "none", A, "+-"[idx % 2], "none")
+        res.sample({"sparse": "3 single-base blocks vs 1-2 single-base blocks", "N": N})
     elif part == "scale":
         # the scale family (vlib/worlds.py): operands with many blocks.  Partners of a layout A: A shifted by one, A's own
         # gaps, the next layout of the family, every single interval from before A to a block boundary / from a block
